@@ -1,28 +1,29 @@
 """C05 - the parser accepts exactly the documented grammar and never drops input.
 
-Decided here (language equality over all strings is not decidable statically):
-  C05-R1  grammar recovery: from the call structure of the recursive-descent levels the table
-          (operator class searched, callee of tokens[..i], callee of tokens[i+1..], fall-through callee) is recovered and
-          compared with the precedence list of README.md: hybrid < iff < imp < or < xor < and < binary temporal < unary <
-          atoms; binary levels send the prefix to the next tighter level and the suffix to themselves (right
-          associativity) and build mk_binary(prefix, suffix, searched operator); prefix-operator levels (hybrid, unary)
-          send the suffix to themselves; the terminal level re-enters the top level for a parenthesised group and
-          returns its result unchanged; every BinaryOp variant is searched in exactly one level; no level has a mode
-          parameter;
-  C05-R2  token coverage: in a prefix-operator level the tokens before the first operator are not consumed by anybody,
-          so the level must return Err whenever that prefix is non-empty: the Err path condition is equivalent to
-          `i > 0` (a second conjunct `!P(tokens[i-1])` with P the searched class is vacuous because i is the first
-          position satisfying P); the terminal level accepts only a single token;
-  C05-R3  plain mode rejects extensions: every construction of Atomic::WildCardProp and of a `Some(domain)` in the
-          tokenizer is control-dependent on the mode flag, try_tokenize_formula passes `false`, the extended entry
-          `true`, recursion passes the flag on unchanged and `@` never allows a domain;
-  C05-R4  look-ahead for operator characters that are also name characters: (a) every literal arm of the tokenizer for
-          a name character (E, A, 3, V) has a guard that inspects the look-ahead; (b) the guards are evaluated
-          abstractly on a finite partition of the next character: the E/A guard holds exactly for X,F,G,U,W; the 3/V
-          guard is `next non-whitespace character is '{'`; (c) "may continue a name" is decided by one predicate only
-          (is_valid_in_name = alphanumeric or '_'): no other function tests is_alphanumeric directly;
-  C05-R5  whitespace: the whitespace arm precedes every other arm, and collect_var_and_dom_from_operator skips
-          whitespace before each of its segments."""
+Decided here (language equality over all strings is not decidable statically; these are its structural necessary conditions):
+  C05-R1  grammar recovery (parserspec): every level of the recursive descent is summarised with the module's helpers inlined
+          (search helpers, predicates, a generic helper shared by several levels - folded back to the level where it calls
+          itself) and its return value is read as a decision tree.  The class of tokens a level searches is obtained by
+          *evaluating* its search predicate on one representative per token kind (so `matches!`, nested `match`, `==` give the
+          same class).  The chain of fall-throughs must be the README precedence list hybrid < iff < imp < or < xor < and <
+          binary temporal < unary < atoms; every level searches the FIRST occurrence over the whole slice, exactly once, and has
+          no mode parameter; a binary level falls through to the next level exactly when nothing is found and otherwise builds
+          mk_binary(next(tokens[..i]), same(tokens[i+1..]), searched operator) - right associative; a prefix level (hybrid,
+          unary) builds its node from tokens[i] and same(tokens[i+1..]); every BinaryOp variant is searched by exactly one level;
+          the terminal level turns Var / WildCardProp / Prop tokens into the corresponding atoms;
+  C05-R2  token coverage: a prefix level returns Err exactly when tokens precede the operator (conditions are compared as
+          Boolean functions of FOUND and i > 0; a conjunct `tokens[i-1] is not of the searched class` is vacuous because i is the
+          first such position); the terminal level produces a formula only from a slice of exactly one token and parses a
+          parenthesised group by re-entering the top level on the inner tokens, returning that result unchanged;
+  C05-R3  plain mode rejects extensions (tokrules, on the tokenizer's first-decision table): with parse_wild_cards = false no
+          wild-card token and no domain can be produced, for the short and the long spellings; `@` / `\jump` never take a
+          domain; the entry points pass false / true, the recursion for groups passes the flag on;
+  C05-R4  look-ahead for operator characters that are also name characters: the decision table is evaluated for `E` / `A`
+          followed by each temporal letter and by name / non-name characters, for `3` / `V` followed by name characters, non-name
+          characters and `{`; the quantifier reading of `3` / `V` must be decided by a non-consuming look-ahead that skips
+          whitespace and looks for `{`; name characters are exactly alphanumerics and `_`;
+  C05-R5  whitespace: a whitespace character produces neither a token nor an error; the hybrid segments skip whitespace before
+          each part; skip_whitespaces consumes only - and all kinds of - whitespace."""
 import os
 import re
 
